@@ -1318,6 +1318,94 @@ def rule_r9(prog, res):
     res.floor('R9', 'returns of _header_to_bytes', k, 2)
 
 
+# ------------------------------------------------------------------ R10
+def rule_r10(prog, res):
+    res.rule('R10', 'the finaliser closes the context before it runs any '
+             'listener; header parameters that are not ASCII take the RFC '
+             '2231 form; nothing but Faults escapes the request phases '
+             '(C10-R2/R9)')
+    w = prog.cls('spyne.server.wsgi:WsgiApplication')
+    fins = set()
+    for f in w.methods.values():
+        for c in calls_in(f.node):
+            if call_name(c) == '_ClosingIterator' and len(c.args) >= 2:
+                for x in ast.walk(c.args[1]):
+                    if isinstance(x, ast.Attribute) and isinstance(
+                            x.value, ast.Name) and x.value.id == 'self':
+                        nm = x.attr
+                        cand = [m for k, m in w.methods.items()
+                                if k == nm or k.endswith(nm)]
+                        fins.update(cand)
+    n = 0
+    for g in sorted(fins, key=lambda m: m.qualname):
+        closes = [c for c in calls_in(g.node) if call_name(c) == 'close' and
+                  isinstance(c.func, ast.Attribute) and
+                  'ctx' in unparse(c.func.value)]
+        events = [c for c in calls_in(g.node) if call_name(c) == 'fire_event']
+        if not closes:
+            continue
+        n += 1
+        in_finally = []
+        for t in walk_no_defs(g.node):
+            if isinstance(t, ast.Try):
+                for st in t.finalbody:
+                    in_finally += [c for c in ast.walk(st) if c in closes]
+        ok = bool(in_finally) or not events or \
+            min(c.lineno for c in closes) < min(e.lineno for e in events)
+        res.ob('R10', g.where, '%s: context closed at line %s, listeners '
+               'fired at %s' % (g.qualname, [c.lineno for c in closes],
+                                [e.lineno for e in events]),
+               'ok' if ok else 'VIOLATED')
+        if not ok:
+            res.finding('R10', '%s|close-after-listener' % g.qualname,
+                        g.where, '%s fires a listener event before it closes '
+                        'the context: the closing iterator marks itself '
+                        'finalised before calling the finaliser, so when the '
+                        'listener raises the context is never closed '
+                        '(method_context_closed never fires)' % g.qualname)
+    res.floor('R10', 'finalisers handed to the closing iterator', n, 1)
+    # header parameter probe
+    m = prog.module('spyne.server.http')
+    fp = m.functions.get('_formatparam')
+    if fp is None:
+        raise AnalysisError('_formatparam', 'not found')
+    k = 0
+    for t in walk_no_defs(fp.node):
+        if not isinstance(t, ast.Try):
+            continue
+        enc = [c for st in t.body for c in ast.walk(st) if isinstance(
+            c, ast.Call) and call_name(c) == 'encode' and c.args and
+            isinstance(c.args[0], ast.Constant)]
+        if not enc or not any('UnicodeEncodeError' in unparse(h.type or
+                              ast.Constant(value='')) for h in t.handlers):
+            continue
+        k += 1
+        codec = str(enc[0].args[0].value).lower().replace('_', '-')
+        ok = codec in ('ascii', 'us-ascii', 'latin-1', 'latin1',
+                       'iso-8859-1', 'iso8859-1')
+        where = '%s:%d' % (m.relpath, enc[0].lineno)
+        res.ob('R10', where, '_formatparam probes the value with %r' % codec,
+               'ok' if ok else 'VIOLATED')
+        if not ok:
+            res.finding('R10', '_formatparam|probe-codec|%s' % codec, where,
+                        'the probe that sends non-ASCII parameter values to '
+                        'the RFC 2231 branch encodes with %r, which never '
+                        'fails for text: values with characters above U+00FF '
+                        'go into the header verbatim and the WSGI server '
+                        'cannot encode the header as ISO-8859-1' % codec)
+    res.floor('R10', 'header parameter probes', k, 1)
+    # request phases raise Faults only
+    from . import c10
+    from ..report import Result
+    from ..callgraph import CallGraph
+    from ..excflow import ExcFlow
+    ef = ExcFlow(prog, CallGraph(prog))
+    res.share('R10', 'request phases raise Faults only (C10-R9)', 'C10',
+              c10.rule_r9, prog, Result, ef)
+    res.share('R10', 'request phases raise Faults only (C10-R2)', 'C10',
+              c10.rule_r2, prog, Result, ef)
+
+
 def run(prog, res, tier):
     res.run_rule(rule_r1, prog, res)
     res.run_rule(rule_r2, prog, res)
@@ -1328,11 +1416,28 @@ def run(prog, res, tier):
     res.run_rule(rule_r7, prog, res)
     res.run_rule(rule_r8, prog, res)
     res.run_rule(rule_r9, prog, res)
+    res.run_rule(rule_r10, prog, res)
 
 
 _W = 'spyne/server/wsgi.py'
 
 MUTANTS = [
+    Mutant('listener-before-close', 'R10', 'fire', 'spyne/server/wsgi.py',
+           in_func('WsgiApplication.__finalize',
+                   "        p_ctx.close()\n        self.event_manager."
+                   "fire_event('wsgi_close', p_ctx)\n",
+                   "        self.event_manager.fire_event('wsgi_close', p_ctx)"
+                   "\n        p_ctx.close()\n"), 'close-after-listener'),
+    Mutant('close-in-finally', 'R10', 'silent', 'spyne/server/wsgi.py',
+           in_func('WsgiApplication.__finalize',
+                   "        p_ctx.close()\n        self.event_manager."
+                   "fire_event('wsgi_close', p_ctx)\n",
+                   "        try:\n            self.event_manager.fire_event("
+                   "'wsgi_close_', p_ctx)\n        finally:\n"
+                   "            p_ctx.close()\n"), None),
+    Mutant('header-param-probe-utf8', 'R10', 'fire', 'spyne/server/http.py',
+           in_func('_formatparam', "value.encode('ascii')",
+                   "value.encode('utf-8')"), 'probe-codec'),
     Mutant('error-body-materialised-conditionally', 'R9', 'fire', _W,
            in_func('WsgiApplication.handle_error',
                    "        p_ctx.out_string = list(p_ctx.out_string)\n",
